@@ -415,12 +415,15 @@ public:
   inline void* allocate(size_t size, size_t& allocated) {
     // Increase to alignment
     size_t alignedSize = (size + sizeof(double) - 1) & ~(sizeof(double) - 1);
-    if (alignedSize > SourceHeap::AllocSize) {
-      alignedSize = SourceHeap::AllocSize;
+    // a chunk holds at most AllocSize minus its header
+    if (alignedSize > SourceHeap::AllocSize - sizeof(Block)) {
+      alignedSize = SourceHeap::AllocSize - sizeof(Block);
     }
     // Check current block
     if (!head || offset + alignedSize > SourceHeap::AllocSize) {
-      size_t remaining = SourceHeap::AllocSize - offset;
+      // no chunk yet (fresh heap, or after clear() where offset is stale):
+      // nothing is left, refill
+      size_t remaining = head ? SourceHeap::AllocSize - offset : 0;
       assert((remaining & (sizeof(double) - 1)) ==
              0); // should still be aligned
       if (!remaining) {
